@@ -43,6 +43,9 @@ func DepsOf(root *ssa.Function, stopAtHash bool, vs ...ssa.Value) map[string]boo
 	return w.Out
 }
 
+// Seen reports whether the walk reached value v.
+func (w *DepWalker) Seen(v ssa.Value) bool { return w.seen[v] }
+
 func (w *DepWalker) paramIndex(p *ssa.Parameter) int {
 	for i, q := range w.Root.Params {
 		if q == p {
